@@ -10,6 +10,8 @@ Driver for C15. Case line:
   obs ::= P | E | R <status> <nh> {<key> <n> <val>*}* <ntrailers> {<key> <n> <val>*}* <wire body longer than 2048: 0|1> (0 | 1 <decoded body>) <nOuts> {<flag> <n> <err>}*
   bytes ::= h:<hex> | z:<seg>.<seg>…   with seg ::= <hex> | <hexbyte>*<count>
   opt ::= gl <int> | bl <int> | nb | ng | ms <int> | ep <strs> | ee <strs> | ect <strs> | lg
+A line `<id> K <what> => <n> {<len p> <n> <err is nil: 0|1>}*` is contract-only: Write results of a handler behind the
+middleware on an underlying writer that fails (judged by `writeContractRaw`, no model).
 `A` selects the model of the code as shipped, `N` the model of the code as it is now, `O` the model of the code as it
 is now with the configuration computed by the model from the option list (`Compress.config`).
 -/
@@ -159,9 +161,17 @@ def showWith (m : WithResp) : String :=
   if m.panicked then "P" else
   s!"R {m.resp.status} hdrs={m.resp.hdrs.map (fun kv => (String.ofList kv.1, kv.2.map String.ofList))} decoded={m.decoded.map (fun b => (encStr (b.take 48), b.length))} outs={m.outs.map (fun o => (o.n, repr o.err))}"
 
+/-- contract-only lines (tag `K`): the underlying writer fails at some point, the handler's Write results are judged
+    by the io.Writer clause alone (there is no model of an exchange on a failing connection: MI is not evaluated) -/
+def stepContract (id : String) (obs : List String) : String :=
+  match runP (list (do let l ← nat; let n ← int; let ok ← bool; pure (l, n, ok))) obs with
+  | some outs => verdict id true (writeContractRaw outs) "-" "contract-only"
+  | none => s!"{id} bad-case"
+
 def step (line : String) : String :=
   match splitCase line with
   | none => "? bad-line"
+  | some (id, "K" :: _, obs) => stepContract id obs
   | some (id, inp, obs) =>
     match runP pCase inp, runP (do let a ← pObs; let b ← pObs; pure (a, b)) obs with
     | some c, some (op, ow) =>
